@@ -55,6 +55,13 @@ Theorem C09_canonical_idempotent : forall name c,
 Proof. exact canonical_idempotent. Qed.
 Print Assumptions C09_canonical_idempotent.
 
+(* After ANY history of commands, every row of the mailbox table (all that LIST/LSUB can show and
+   LIST-STATUS can open) is a name whose folder is inside the mail directory. *)
+Theorem C09_db_rows_inside : forall root ops r,
+  root_ok root = true -> In r (db_run ops) -> inside root (folder_path root r).
+Proof. exact db_rows_inside. Qed.
+Print Assumptions C09_db_rows_inside.
+
 (* normpath facts the validator relies on *)
 Theorem C09_normpath_idempotent : forall s, normpath (normpath s) = normpath s.
 Proof. exact normpath_idempotent. Qed.
@@ -91,3 +98,10 @@ Proof.
   eexists; split; [vm_compute; reflexivity|]. split; [vm_compute; tauto|].
   apply cmd_paths_confined with (c := CCreate [97; 47; 98]); vm_compute; reflexivity.
 Qed.
+
+(* non-vacuity of the table invariant: CREATE a/b, then RENAME a c rewrites both rows; an escaping
+   CREATE adds nothing. *)
+Example C09_db_example :
+  db_run [OpCreate [97; 47; 98]; OpCreate [46; 46; 47; 120]; OpRename [97] [99] (fun r => startswith r [97])]
+  = [[99]; [99; 47; 98]].
+Proof. vm_compute. reflexivity. Qed.
